@@ -36,7 +36,9 @@ Section Rel.
       fkind_of sc w = Some k -> d = option_map clean d' -> agree_obj sc (OFun k a d) (VFun a w d')
   | AgProp : forall d an va a d', agree_obj ScClass (OAttr KProperty d an va) (VFun a WProp d')
   | AgClass : forall sc x d c oo ih x' d' ns,
-      d = option_map clean d' -> agree_ns ScClass c ns -> agree_obj sc (OClass x d c oo ih) (VClass x' d' ns)
+      d = option_map clean d' -> agree_ns ScClass c ns ->
+      (sc = ScModule -> x = x') ->        (* EXCEPTION iff issubclass(cls, BaseException): for classes bound at module level *)
+      agree_obj sc (OClass x d c oo ih) (VClass x' d' ns)
   | AgData : forall sc k d an va v, k <> KProperty -> agree_obj sc (OAttr k d an va) (VData v)
   with agree_ns : scope -> contents_t -> env -> Prop :=
   | AgNs : forall sc c e,
@@ -61,13 +63,25 @@ Fixpoint def_names (x : stmt) : list name :=
   | _ => []
   end.
 
-(* the names a suite assigns at its own level (not inside nested def / class bodies) *)
+(* the names a suite assigns at its own level (not inside nested def / class bodies; the old-style wrapping of a
+   method does not count: it re-binds the method) *)
 Definition target_names (t : target) : list name :=
   match t with TName n => [n] | TTuple ns => ns | TSelf _ => [] end.
 
+(* the old-style decoration `x = staticmethod(x)` / `x = classmethod(x)` *)
+Definition is_wrapping (ts : list target) (r : rhs) : bool :=
+  match r with
+  | RCall f [a] =>
+      match ts with
+      | [TName n] => text_eqb n a && (text_eqb f p_staticmethod || text_eqb f p_classmethod)
+      | _ => false
+      end
+  | _ => false
+  end.
+
 Fixpoint assigned_names (x : stmt) : list name :=
   match x with
-  | Assign ts _ => flat_map target_names ts
+  | Assign ts r => if is_wrapping ts r then [] else flat_map target_names ts
   | AnnAssign t _ _ => target_names t
   | AugAssign t _ => target_names t
   | If _ b o => flat_map assigned_names b ++ flat_map assigned_names o
@@ -111,7 +125,7 @@ Definition kind_ok (sc : scope) (o : obj) (v : pyval) : Prop :=
   match o, v with
   | OFun k a _, VFun a' w _ => a = a' /\ fkind_of sc w = Some k       (* function/method/classmethod/staticmethod, coroutine *)
   | OAttr KProperty _ _ _, VFun _ WProp _ => sc = ScClass              (* property *)
-  | OClass _ _ _ _ _, VClass _ _ _ => True                             (* a class (CLASS or EXCEPTION) *)
+  | OClass x _ _ _ _, VClass x' _ _ => sc = ScModule -> x = x'         (* a class; at module level: EXCEPTION iff exception class *)
   | OAttr k _ _ _, VData _ => k <> KProperty                           (* a variable of some kind *)
   | _, _ => False
   end.
